@@ -91,6 +91,33 @@ func (revStrCodec) Append(data []byte, ptr unsafe.Pointer, tag []byte) []byte {
 	return append(data, revBytes(s)...)
 }
 
+// embStrCodec is a user's codec written the way the null package writes its own: it embeds the
+// library's StringCodec (and with it every method it does not override, WithInterning included) and
+// changes the bytes: here they are written back to front.
+type embStrCodec struct{ plenccodec.StringCodec }
+
+func (embStrCodec) New() unsafe.Pointer { return unsafe.Pointer(new(MarkStr)) }
+func (embStrCodec) Read(data []byte, ptr unsafe.Pointer, wt plenccore.WireType) (int, error) {
+	return revStrCodec{}.Read(data, ptr, wt)
+}
+func (embStrCodec) Append(data []byte, ptr unsafe.Pointer, tag []byte) []byte {
+	return revStrCodec{}.Append(data, ptr, tag)
+}
+
+// a field of the registered type WITHOUT the option, declared after fields that carry it
+type c19AfterIntern struct {
+	A string  `plenc:"1,intern"`
+	N int     `plenc:"2"`
+	C MarkStr `plenc:"3"`
+	D MarkStr `plenc:"4"`
+}
+type c19AfterPlain struct {
+	A string  `plenc:"1"`
+	N int     `plenc:"2"`
+	C MarkStr `plenc:"3"`
+	D MarkStr `plenc:"4"`
+}
+
 type c19OwnIntern struct {
 	A MarkStr `plenc:"1,intern"`
 	B string  `plenc:"2,intern"`
@@ -100,6 +127,35 @@ type c19OwnPlain struct {
 	A MarkStr `plenc:"1"`
 	B string  `plenc:"2"`
 	C MarkStr `plenc:"3"`
+}
+
+// afterInternCheck: the option belongs to the field that carries it - fields declared after an
+// interned one keep the codec registered for their type (used by C19 and C17)
+func afterInternCheck(c *core.Ctx, r *rand.Rand, cfg model.Cfg, name string, vocab []string, kind string) bool {
+	rec := c.Rec
+	fresh := 5000000
+	q := instNew(cfg)
+	q.RegisterCodec(markStrT, embStrCodec{})
+	for op := 0; op < 30; op++ {
+		a := c19AfterIntern{A: c19Str(r, vocab, &fresh), N: op, C: MarkStr(c19Str(r, vocab, &fresh)), D: MarkStr(c19Str(r, vocab, &fresh))}
+		b := c19AfterPlain{A: a.A, N: a.N, C: a.C, D: a.D}
+		da, err1, pn1 := marshal(q, nil, &a)
+		db, err2, pn2 := marshal(q, nil, &b)
+		rec.Eval(2)
+		if err1 != nil || err2 != nil || pn1 != "" || pn2 != "" || !bytes.Equal(da, db) {
+			rec.Violation(kind, fmt.Sprintf("[%s] fields of a type with a registered codec, declared after an interned field: the encoding of the struct changes with the intern option of the OTHER field: %s vs %s (%v %v %s %s)", name, hexHead(da), hexHead(db), err1, err2, trunc1(pn1), trunc1(pn2)), nil)
+			return false
+		}
+		var ga c19AfterIntern
+		var gb c19AfterPlain
+		e1, p1 := unmarshal(q, db, &ga)
+		e2, p2 := unmarshal(q, db, &gb)
+		if e1 != nil || e2 != nil || p1 != "" || p2 != "" || ga.A != gb.A || ga.C != gb.C || ga.D != gb.D || ga.C != a.C || ga.D != a.D {
+			rec.Violation(kind, fmt.Sprintf("[%s] fields of a type with a registered codec, declared after an interned field, decode to other strings: (%q, %q, %q) vs (%q, %q, %q) (%v %v %s %s)", name, ga.A, ga.C, ga.D, gb.A, gb.C, gb.D, e1, e2, trunc1(p1), trunc1(p2)), nil)
+			return false
+		}
+	}
+	return true
 }
 
 // c19OwnCodec: a named string type with the user's own codec registered, under the intern option
@@ -130,6 +186,9 @@ func c19OwnCodec(c *core.Ctx, idx int) {
 			rec.Violation("interning", fmt.Sprintf("[%s] a named string type with a registered codec of its own: the field decodes to other strings with the intern option: (%q, %q, %q) vs (%q, %q, %q) (%v %v %s %s)", name, ga.A, ga.B, ga.C, gb.A, gb.B, gb.C, e1, e2, trunc1(p1), trunc1(p2)), nil)
 			return
 		}
+	}
+	if !afterInternCheck(c, r, cfg, name, vocab, "interning") {
+		return
 	}
 	rec.Count("own_codec_trials", 1)
 	rec.NonTrivial(core.Hash64("own", name, fmt.Sprint(idx)))
